@@ -14,13 +14,22 @@ Recipe (JSON):
   stages   S lists of ops; op = ["copy", src, dst] | ["gen", [ins], [outs], rw] | ["dart", [ins], [outs]]
            operand = ["b", k] whole L1 alloc | ["a", k] whole argument | ["v", k] view k
                      | ["x", k] pool value k as scalar index input (linalg.generic, not first input)
-  post     ops after the loop (operands "a"/"b" only)
+  post     ops after the loop (operands "a"/"b", and the outer views "pv"/"qv")
+  cse      subset of ["lb", "ub", "step"]: that bound of the loop is not a constant of its own but the pool constant %c<value>
+           (when 0 <= value < 5), as CSE'd MLIR has it: every other user of %c<value> then shares the SSA value with the loop bound
+  pool refs (idx x / y, view row, "x" operand) may also be the strings "lb" | "ub" | "step": the SSA value the loop uses as that bound
+  pre_views / post_views   [base "G", k, cref, rows]: subview of a global defined before / after the loop at a constant row;
+           cref = int c (pool constant %c<c>) | "lb" | "ub" | "step"; operands ["pv", n] (pre / post ops) and ["qv", n] (post ops)
+  pre      ops before the loop (operands "a"/"b"/"pv"), followed by one barrier
+  loop2    a second, plain loop after the first one (no barrier in its body, so construct-pipeline leaves it alone):
+           {"lb": cref, "ub": cref, "step": cref, "src": k, "dst": k, "off": cref | null}: for %j: copy G<src>[%j] -> G<dst>[%j + off]
   tail     (shape sub only) one deviation from the recognised shape:
            ["mid-index", s, "before"|"after"] an index computation before / after the ops of stage s (s >= 1: after a barrier),
            ["double-sync", s] a second barrier after stage s, ["no-last-sync"], ["trailing-op", op] a stage op after the last barrier,
            ["iter-arg"] the loop carries an index counter (iter_args) that selects the source tile
 The loop body is: idx ops, views, then the stages, each followed by snax.cluster_sync_op.
 Every stage op carries c15.tag = "s<stage>o<k>"; every alloc carries c15.buf = "b<k>" (survives cloning).
+Ops before / after the loop carry "pre<k>" / "post<k>", the copy of the second loop "l2o0".
 """
 from __future__ import annotations
 
@@ -85,31 +94,87 @@ def build(rc) -> Built:
         lines.append(f'  %b{k} = "memref.alloc"() <{{operandSegmentSizes = array<i32: 0, 0>}}> {{c15.buf = "b{k}"}} : () -> {_ty_l1(r)}')
     for c in range(NCONST):
         lines.append(f'  %c{c} = "arith.constant"() <{{value = {c} : index}}> : () -> index')
-    lines.append(f'  %lb = "arith.constant"() <{{value = {rc["lb"]} : index}}> : () -> index')
+    cse = rc.get("cse", [])
+    bound_ssa = {}
+
+    def bound(which):
+        v = rc[which]
+        if which in cse and 0 <= v < NCONST:
+            feats.add("cse:" + which)
+            return f"%c{v}"
+        lines.append(f'  %{which} = "arith.constant"() <{{value = {v} : index}}> : () -> index')
+        return "%" + which
+
+    bound_ssa["lb"] = bound("lb")
     if rc.get("ub_dyn"):
         ubn = "%n"
     else:
-        lines.append(f'  %ub = "arith.constant"() <{{value = {rc["ub"]} : index}}> : () -> index')
-        ubn = "%ub"
-    lines.append(f'  %step = "arith.constant"() <{{value = {rc["step"]} : index}}> : () -> index')
+        ubn = bound("ub")
+    bound_ssa["ub"] = ubn
+    bound_ssa["step"] = bound("step")
+    lbn, stepn = bound_ssa["lb"], bound_ssa["step"]
+
+    def cref(ref):
+        """constant reference outside the loop body: (ssa, value)"""
+        if isinstance(ref, str):
+            if ref not in bound_ssa:
+                raise BadRecipe("unknown bound reference")
+            return bound_ssa[ref], rc[ref]
+        if not (0 <= ref < NCONST):
+            raise BadRecipe("unknown constant")
+        return f"%c{ref}", ref
+
+    def outer_views(key, prefix, out):
+        info = []
+        for n, (bk, k, ref, r) in enumerate(rc.get(key, [])):
+            if bk != "G" or not (0 <= k < nG):
+                raise BadRecipe("outer view of unknown global")
+            row, _ = cref(ref)
+            vty = _ty_view(r, False)
+            out.append(
+                f'  %{prefix}{n} = "memref.subview"(%G{k}, {row}) <{{operandSegmentSizes = array<i32: 1, 1, 0, 0>, '
+                f"static_offsets = array<i64: -9223372036854775808, 0>, static_sizes = array<i64: {r}, {T}>, "
+                f"static_strides = array<i64: 1, 1>}}> : (memref<{GROWS}x{T}xi32>, index) -> {vty}"
+            )
+            info.append((f"%{prefix}{n}", vty, r))
+            feats.add(key.replace("_", "-"))
+        return info
+
+    pvinfo = outer_views("pre_views", "pv", lines)
+    qvinfo = []  # filled after the loop
+    pre_ops = rc.get("pre", [])
+    pre_at = len(lines)  # the ops before the loop are emitted once emit_op exists
     tail = rc.get("tail")
     carried = bool(tail) and tail[0] == "iter-arg"
     if carried:
         # the loop carries a counter %k (0, 1, 2, ...) that selects the source tile instead of %i
-        lines.append(f'  %res = "scf.for"(%lb, {ubn}, %step, %c0) ({{')
+        lines.append(f'  %res = "scf.for"({lbn}, {ubn}, {stepn}, %c0) ({{')
         lines.append("  ^bb1(%i: index, %k: index):")
     else:
-        lines.append(f'  "scf.for"(%lb, {ubn}, %step) ({{')
+        lines.append(f'  "scf.for"({lbn}, {ubn}, {stepn}) ({{')
         lines.append("  ^bb1(%i: index):")
 
     pool = ["%i"] + [f"%c{c}" for c in range(NCONST)]
+
+    def pref(k):
+        """pool reference: position in the pool, or the SSA value of a loop bound"""
+        if isinstance(k, str):
+            if k not in bound_ssa:
+                raise BadRecipe("unknown bound reference")
+            return bound_ssa[k]
+        return pool[k % len(pool)]
+
     body = []
     for n, (op, x, y) in enumerate(rc.get("idx", [])):
-        a = pool[x % len(pool)]
-        b = pool[y % len(pool)]
+        a = pref(x)
+        b = pref(y)
         if op in ("remui", "divui"):
             # never divide by zero or by a run-time value: divisor is a constant 1..4
-            b = f"%c{1 + (y % (NCONST - 1))}"
+            if isinstance(y, str):
+                if (y == "ub" and rc.get("ub_dyn")) or rc[y] < 1:
+                    raise BadRecipe("division by a run-time value or by zero")
+            else:
+                b = f"%c{1 + (y % (NCONST - 1))}"
         body.append(f'    %x{n} = "arith.{op}"({a}, {b}) : (index, index) -> index')
         pool.append(f"%x{n}")
         feats.add("idx:" + op)
@@ -118,7 +183,7 @@ def build(rc) -> Built:
         body.append('    %k2 = "arith.addi"(%k, %c1) : (index, index) -> index')
     vinfo = []  # (ssa, type, rows)
     for n, (bk, k, ref, r) in enumerate(rc.get("views", [])):
-        row = pool[ref % len(pool)]
+        row = pref(ref)
         if carried and n == 0:
             row = "%k"
         if bk == "G":
@@ -145,6 +210,14 @@ def build(rc) -> Built:
 
     def operand(o, in_loop=True):
         kind, k = o
+        if kind == "pv":
+            if in_loop is True or not (0 <= k < len(pvinfo)):
+                raise BadRecipe("unknown outer view")
+            return pvinfo[k]
+        if kind == "qv":
+            if in_loop != "post" or not (0 <= k < len(qvinfo)):
+                raise BadRecipe("unknown outer view")
+            return qvinfo[k]
         if kind == "b":
             if not (0 <= k < len(l1)):
                 raise BadRecipe("unknown L1 buffer")
@@ -154,14 +227,17 @@ def build(rc) -> Built:
                 raise BadRecipe("unknown argument")
             return f"%a{k}", _ty_arg(args[k]), args[k]
         if kind == "v":
-            if not in_loop or not (0 <= k < len(vinfo)):
+            if in_loop is not True or not (0 <= k < len(vinfo)):
                 raise BadRecipe("unknown view")
             return vinfo[k]
         if kind == "x":
             # an index value computed in the loop body, passed as a scalar input of a linalg.generic
-            if not in_loop:
+            if in_loop is not True:
                 raise BadRecipe("index value outside the loop")
-            return pool[k % len(pool)], "index", None
+            # loop-variant (%i or computed from it: the documented K_SCALAR shape) or a constant defined outside the loop
+            variant = not isinstance(k, str) and not (1 <= k % len(pool) <= NCONST)
+            feats.add("op:gen-scalar-index-input" if variant else "op:gen-scalar-const-input")
+            return pref(k), "index", None
         raise BadRecipe("operand kind")
 
     stage_tags = {}
@@ -189,9 +265,7 @@ def build(rc) -> Built:
             maps = ", ".join("affine_map<(d0, d1) -> ()>" if r_ is None else "affine_map<(d0, d1) -> (d0, d1)>"
                              for (_, _, r_) in ins + outs)
             bargs = ", ".join(f"%{tag}x{j}: " + ("index" if r_ is None else "i32") for j, (_, _, r_) in enumerate(ins + outs))
-            if any(r_ is None for (_, _, r_) in ins):
-                feats.add("op:gen-scalar-index-input")
-            reg = [f"    ^bb0({bargs}):"]
+            reg =[f"    ^bb0({bargs}):"]
             ys = []
             for j in range(len(outs)):
                 if rw:
@@ -252,11 +326,43 @@ def build(rc) -> Built:
     else:
         lines.append('    "scf.yield"() : () -> ()')
         lines.append("  }) : (index, index, index) -> ()")
+    if pre_ops:
+        pre = []
+        for k, op in enumerate(pre_ops):
+            emit_op(op, f"pre{k}", pre, in_loop="pre")
+        feats.add("pre-op")
+        # the loop starts in a fresh epoch: the ops before it are complete
+        pre.append('    "snax.cluster_sync_op"() : () -> ()')
+        lines[pre_at:pre_at] = [l[2:] for l in pre]
+    qvinfo.extend(outer_views("post_views", "qv", lines))
     post = []
     for k, op in enumerate(rc.get("post", [])):
-        emit_op(op, f"post{k}", post, in_loop=False)
+        emit_op(op, f"post{k}", post, in_loop="post")
         feats.add("post-op")
     lines.extend(l[2:] for l in post)
+    l2 = rc.get("loop2")
+    if l2:
+        (lb2, _), (ub2, _), (st2, st2v) = cref(l2["lb"]), cref(l2["ub"]), cref(l2["step"])
+        if st2v < 1:
+            raise BadRecipe("second loop with a non-positive step")
+        if not (0 <= l2["src"] < nG and 0 <= l2["dst"] < nG):
+            raise BadRecipe("second loop on an unknown global")
+        gty = f"memref<{GROWS}x{T}xi32>"
+        vty = _ty_view(1, False)
+        sub = ('<{operandSegmentSizes = array<i32: 1, 1, 0, 0>, static_offsets = array<i64: -9223372036854775808, 0>, '
+               f"static_sizes = array<i64: 1, {T}>, static_strides = array<i64: 1, 1>}}> : ({gty}, index) -> {vty}")
+        lines.append(f'  "scf.for"({lb2}, {ub2}, {st2}) ({{')
+        lines.append("  ^bb2(%j: index):")
+        drow = "%j"
+        if l2.get("off") is not None:
+            lines.append(f'    %jo = "arith.addi"(%j, {cref(l2["off"])[0]}) : (index, index) -> index')
+            drow = "%jo"
+        lines.append(f'    %w0 = "memref.subview"(%G{l2["src"]}, %j) {sub}')
+        lines.append(f'    %w1 = "memref.subview"(%G{l2["dst"]}, {drow}) {sub}')
+        lines.append(f'    "memref.copy"(%w0, %w1) {{c15.tag = "l2o0"}} : ({vty}, {vty}) -> ()')
+        lines.append('    "scf.yield"() : () -> ()')
+        lines.append("  }) : (index, index, index) -> ()")
+        feats.add("second-loop")
     lines.append('  "func.return"() : () -> ()')
     lines.append("}) : () -> ()")
     lines.append("}) : () -> ()")
@@ -407,8 +513,73 @@ def loop_recipe(draw, tier="quick"):
             post.append(["copy", draw(st.sampled_from(srcs)), draw(st.sampled_from(dsts))])
     ub_dyn = rare(5)
     canon = True if (lb, step) != (0, 1) else draw(st.booleans())
-    return dict(S=S, lb=lb, ub=ub, step=step, ub_dyn=ub_dyn, canon=canon, nG=nG, args=args, l1=l1, idx=idx, views=views,
-                stages=stages, post=post)
+    rc = dict(S=S, lb=lb, ub=ub, step=step, ub_dyn=ub_dyn, canon=canon, nG=nG, args=args, l1=l1, idx=idx, views=views,
+              stages=stages, post=post)
+    if draw(st.integers(0, 4)) >= 2:
+        _share_bounds(draw, rc, r)
+    return rc
+
+
+def _share_bounds(draw, rc, r):
+    """Give the SSA values the loop uses as lb / ub / step other users (as CSE'd MLIR has them): the pool constant of the same
+    value becomes the bound ("cse"), index computations / view offsets / a scalar stage operand in the body refer to it, ops
+    before and after the loop and a second plain loop are indexed / bounded by it."""
+    def rare(k):
+        return draw(st.integers(0, k)) == k
+
+    def which():
+        # the lower bound first: it is the one unroll-pipeline replaces
+        return draw(st.sampled_from(["lb", "lb", "lb", "ub", "step"]))
+
+    def cref():
+        return which() if not rare(3) else draw(st.integers(0, NCONST - 1))
+
+    cse = [w for w in ("lb", "ub", "step") if draw(st.integers(0, 3)) >= (1 if w == "lb" else 2)]
+    if cse:
+        rc["cse"] = cse
+    lb = rc["lb"]
+    # (a) users in the loop body
+    for _ in range(draw(st.integers(0, 2))):
+        w = which()
+        # the pool position of the constant of that value (shared iff "cse"), or the bound's SSA value itself
+        ref = 1 + rc[w] if (w in cse and 0 <= rc[w] < NCONST and not (w == "ub" and rc["ub_dyn"])) else w
+        k = draw(st.integers(0, 3))
+        if k == 0 and rc["idx"]:
+            e = draw(st.sampled_from(rc["idx"]))
+            if e[0] not in ("remui", "divui"):
+                e[2] = ref
+        elif k == 1:
+            # the row of a tile (not of the default source / sink tiles, whose rows should depend on %i)
+            cand = [v for v in rc["views"][2:] if v[0] == "G"]
+            if cand:
+                draw(st.sampled_from(cand))[2] = ref
+        elif k == 2:
+            gens = [op for ops in rc["stages"] for op in ops if op[0] == "gen" and not any(o[0] == "x" for o in op[1])]
+            if gens:
+                draw(st.sampled_from(gens))[1].append(["x", ref])
+        else:
+            # a new index computation %i (+|-|*) bound, used as the row of a tile when there is a free one
+            rc["idx"].append([draw(st.sampled_from(["addi", "addi", "subi", "muli"])), 0, ref])
+            cand = [v for v in rc["views"][2:] if v[0] == "G"]
+            if cand and not rare(2):
+                draw(st.sampled_from(cand))[2] = NCONST + len(rc["idx"])
+    outer = [2, 2, 2, 0, 1]
+    # (c) ops before the loop
+    if rare(3):
+        rc["pre_views"] = [["G", draw(st.sampled_from(outer)), cref(), r], ["G", draw(st.sampled_from(outer)), cref(), r]]
+        dsts = [["pv", 1]] + [["a", k] for k in range(len(rc["args"]))] + [["b", k] for k in range(len(rc["l1"])) if rc["l1"][k] == r]
+        rc["pre"] = [["copy", ["pv", 0], draw(st.sampled_from(dsts))]]
+    # (b) ops after the loop: a tagged copy / compute op on tiles indexed by the value, a second loop bounded by it
+    if rare(2):
+        rc["post_views"] = [["G", draw(st.sampled_from(outer)), cref(), r], ["G", draw(st.sampled_from(outer)), cref(), r]]
+        src, dst = ["qv", 0], ["qv", 1]
+        if rc.get("pre_views") and rare(2):
+            src = ["pv", draw(st.integers(0, 1))]
+        rc["post"] = rc["post"] + [["copy", src, dst] if not rare(3) else ["gen", [src], [dst], False]]
+    if rare(2):
+        rc["loop2"] = dict(lb=cref() if not rare(2) else "lb", ub=draw(st.sampled_from(["ub", "ub", 2, 3, 4])),
+                           step=draw(st.sampled_from(["step", "step", 1, 2])), src=draw(st.sampled_from(outer)),
+                           dst=draw(st.sampled_from(outer)), off=None if not rare(2) else cref())
 
 
 @st.composite
@@ -432,8 +603,15 @@ def shape_recipe(draw, tier="quick"):
         tail = [k, ["copy", ["v", 0], ["v", 2]]]
     else:
         tail = [k]
-    return dict(S=S, lb=0, ub=trip, step=1, ub_dyn=False, canon=False, nG=3, args=[], l1=[1] * (S - 1), idx=[], views=views,
-                stages=stages, post=[], tail=tail)
+    rc = dict(S=S, lb=0, ub=trip, step=1, ub_dyn=False, canon=False, nG=3, args=[], l1=[1] * (S - 1), idx=[], views=views,
+              stages=stages, post=[], tail=tail)
+    if draw(st.booleans()):
+        # the bounds are the shared constants %c0 / %c<ub> / %c1 (the iter_args init, the deviating index op use them too)
+        rc["cse"] = draw(st.sampled_from([["lb"], ["lb", "step"], ["lb", "ub", "step"], ["step"]]))
+        if draw(st.booleans()):
+            rc["post_views"] = [["G", 2, "lb", 1], ["G", 2, draw(st.sampled_from(["ub", "step", 3])), 1]]
+            rc["post"] = [["copy", ["qv", 0], ["qv", 1]]]
+    return rc
 
 
 # ------------------------------------------------------------------------------------ finite grid
